@@ -78,7 +78,8 @@ Proof. reflexivity. Qed.
 Lemma q_next_table_eq : forall qi tables cached,
   query_next_table qi tables cached =
   (q <- getQ qi ;;
-   r <- q_nt_go q tables (S (length tables)) (q_tab q - 1) ;;
+   r <- on_err (q_nt_go q tables (S (length tables)) (q_tab q - 1))
+          (fun s => s <| w_queries ::= updf qi (fun q0 => q0 <| q_tab := nt_fail_pos s (q_rels q) tables (S (length tables)) (q_tab q - 1) + 2 |>) |>) ;;
    match r with
    | Some (pos, tid) => query_set_table qi pos tid ;;; ret true
    | None =>
@@ -87,6 +88,9 @@ Lemma q_next_table_eq : forall qi tables cached,
        ret false
    end).
 Proof. reflexivity. Qed.
+
+Lemma q_on_err_ok : forall A (m : MW A) h s a s', m s = Ok a s' -> on_err m h s = Ok a s'.
+Proof. intros A m h s a s' H. unfold on_err. rewrite H. reflexivity. Qed.
 
 Definition q_na_go (qi : nat) (archs : list nat) (f : fobj) : nat -> nat -> MW bool :=
   fix go (fuel : nat) (pos : nat) : MW bool :=
@@ -110,7 +114,7 @@ Definition q_na_go (qi : nat) (archs : list nat) (f : fobj) : nat -> nat -> MW b
           else
             q <- getQ qi ;;
             tabs <- of_opt (arch_get_tables a (q_rels q)) EIndex ;;
-            modQ qi (fun q => q <| q_tables := tabs |> <| q_tab := 1 |>) ;;;
+            modQ qi (fun q => q <| q_tables := tabs |> <| q_tab := 1 |> <| q_table := None |>) ;;;
             found <- query_next_table qi tabs false ;;
             if found then ret true else go fu (S pos)
       end
@@ -135,7 +139,7 @@ Lemma q_na_go_S : forall qi archs f fu pos, q_na_go qi archs f (S fu) pos =
       else
         q <- getQ qi ;;
         tabs <- of_opt (arch_get_tables a (q_rels q)) EIndex ;;
-        modQ qi (fun q => q <| q_tables := tabs |> <| q_tab := 1 |>) ;;;
+        modQ qi (fun q => q <| q_tables := tabs |> <| q_tab := 1 |> <| q_table := None |>) ;;;
         found <- query_next_table qi tabs false ;;
         if found then ret true else q_na_go qi archs f fu (S pos)
   end.
@@ -344,9 +348,16 @@ Proof.
   match goal with |- q_fr (if ?b then _ else _) => destruct b end; [apply q_fr_ret | apply IH].
 Qed.
 
+Lemma q_fr_on_err : forall A (m : MW A) h, q_fr m -> (forall s, query_frame s (h s)) -> q_fr (on_err m h).
+Proof.
+  intros A m h Hm Hh s. unfold on_err. specialize (Hm s). destruct (m s) as [a s'|e s']; cbn [state_of] in *; [exact Hm|].
+  eapply q_frame_trans; [exact Hm | apply Hh].
+Qed.
+
 Lemma q_fr_next_table : forall qi tables cached, q_fr (query_next_table qi tables cached).
 Proof.
-  intros. rewrite q_next_table_eq. q_fr_tac; [apply q_fr_nt_go|].
+  intros. rewrite q_next_table_eq. q_fr_tac;
+    [apply q_fr_on_err; [apply q_fr_nt_go | intros s0; unfold query_frame; cbn; repeat split]|].
   match goal with |- q_fr (match ?r with _ => _ end) => destruct r as [[pos tid]|] end; q_fr_tac.
   - apply q_fr_set_table.
   - apply q_fr_close.
@@ -821,9 +832,9 @@ Proof.
   rewrite (sa_bind_ok (q_st_getQ q)).
   destruct (q_nt_go_spec q L (S (length L)) (q_tab q - 1) (q_st q) R ltac:(lia) HR)
     as [(pos & tid & t & R' & H1 & H2 & H3 & H4 & H5 & H6)|[H1 H2]].
-  - left. exists pos, tid, t, R'. rewrite (sa_bind_ok H1).
+  - left. exists pos, tid, t, R'. rewrite (sa_bind_ok (q_on_err_ok _ _ _ _ _ _ H1)).
     rewrite (sa_bind_ok (q_set_table_spec q pos tid t H3 H4)). repeat split; assumption.
-  - right. split; [exact H2|]. rewrite (sa_bind_ok H1). rewrite (sa_bind_ok (q_st_modQ _ q)). reflexivity.
+  - right. split; [exact H2|]. rewrite (sa_bind_ok (q_on_err_ok _ _ _ _ _ _ H1)). rewrite (sa_bind_ok (q_st_modQ _ q)). reflexivity.
 Qed.
 
 Lemma q_next_table_uncached : forall q L R,
@@ -928,7 +939,7 @@ Proof.
       destruct (q_trows (w_tables s0) (q_rels q) tabs) as [r1|] eqn:Er1; [|discriminate].
       destruct (q_arows s0 f (q_rels q) (skipn (S pos) archs)) as [r2|] eqn:Er2; [|discriminate].
       injection HR as HR. rewrite (sa_bind_ok (q_st_modQ _ q1)).
-      set (q2 := q1 <| q_tables := tabs |> <| q_tab := 1 |>).
+      set (q2 := q1 <| q_tables := tabs |> <| q_tab := 1 |> <| q_table := None |>).
       destruct (q_next_table_uncached q2 tabs r1 ltac:(cbn; lia) Er1)
         as [(pos' & tid & t & R' & H1 & H2 & H3 & H4 & H5)|[H1 H2]].
       * left. rewrite (sa_bind_ok H1). exists (q_at q2 pos' tid t), tid, t, R', r2.
@@ -1317,13 +1328,19 @@ Qed.
 Lemma q_I_J : forall qi s, q_I qi s -> q_J qi s.
 Proof. intros qi s [H _]. exact H. Qed.
 
+Lemma q_hoare_on_err_T : forall A (P : W -> Prop) (m : MW A) h (Q : A -> W -> Prop),
+  hoare P m Q q_T -> hoare P (on_err m h) Q q_T.
+Proof.
+  intros A P m h Q H s Hs. specialize (H s Hs). unfold on_err. destruct (m s) as [a s'|e s']; [exact H | exact I].
+Qed.
+
 Lemma q_ok_next_table : forall qi L cached,
   hoare (q_I qi) (query_next_table qi L cached)
         (fun r s => if r then q_F s else if cached then q_F s else q_I qi s) q_T.
 Proof.
   intros. rewrite q_next_table_eq.
   eapply hoare_bind; [apply q_hoare_ro, q_ro_getQ | intros q].
-  eapply hoare_bind; [apply q_hoare_ro, q_ro_nt_go | intros r].
+  eapply hoare_bind; [apply q_hoare_on_err_T, q_hoare_ro, q_ro_nt_go | intros r].
   destruct r as [[pos tid]|].
   - eapply hoare_bind; [|intros ?; apply hoare_ret; intros s Hs; exact Hs].
     eapply hoare_conseq; [apply q_ok_set_table | apply q_I_J | auto | auto].
